@@ -276,6 +276,11 @@ def _drop_reason(h, hits, out, lengths, neighbour_mode, complete_out):
     if not neighbour_mode:
         for unit in units:
             for k in out:
+                if k.p == unit.p and contains(unit, k) and unit.e - unit.s < MERGE_SPAN * lengths[unit.p]:
+                    # a fragment of the merge itself is no rival of the merge (within the span that is merged, every
+                    # fragment of the profile inside the hull belongs to it; a longer hit that merely contains
+                    # other hits of its profile does compete with those too far from its start to be merged)
+                    continue
                 if better(k, unit) and conflict(k, unit, lengths):
                     return "better-kept-conflict-with-merged-unit"
     # (b) incomplete fragment with a more complete alternative
